@@ -41,6 +41,29 @@ def inverse (p : Pose K) : Pose K :=
 
 def identity : Pose K := { r := Quat.one, t := V3.zero }
 
+/-- `PoseTransform.rescale(scale)` (PoseTransform.py:109-116): the translation is multiplied; the only method that changes a
+  pose IN PLACE -/
+def rescale (s : K) (p : Pose K) : Pose K := { r := p.r, t := ⟨s * p.t.x, s * p.t.y, s * p.t.z⟩ }
+
+/-- a history over a pool of pose OBJECTS: results of inverse / compose join the pool, rescale changes one object in place -/
+inductive HistOp (K : Type) where
+  | inverse (src : Nat)
+  | rescale (idx : Nat) (s : K)
+  | compose (idxs : List Nat)
+
+def histStep (pool : List (Pose K)) : HistOp K → List (Pose K)
+  | HistOp.inverse i => match pool[i]? with
+    | some p => pool ++ [inverse p]
+    | none => pool
+  | HistOp.rescale i s => match pool[i]? with
+    | some p => pool.set i (rescale s p)
+    | none => pool
+  | HistOp.compose is => match compose (is.filterMap (fun i => pool[i]?)) with
+    | some c => pool ++ [c]
+    | none => pool
+
+def runHist (pool : List (Pose K)) (ops : List (HistOp K)) : List (Pose K) := ops.foldl histStep pool
+
 /-- one row of `transform_points` (PoseTransform.py:148-166) -/
 def transform (p : Pose K) (x : V3 K) : V3 K :=
   V3.add (M3.mulVec (rot p.r) x) p.t
